@@ -130,7 +130,7 @@ class LrParser:
                     f"Error parsing at character {look_ahead}"
                 )
             action = self.action_table[key]
-            if isinstance(action, Reduce):
+            if isinstance(action, (Reduce, Accept)):
                 f_args = []
                 prod = self.grammar.productions[action.rule]
                 for _ in prod.symbols:
@@ -141,6 +141,14 @@ class LrParser:
                 r_data = None
                 if prod.f:
                     r_data = prod.f(*f_args)
+                if isinstance(action, Accept) and stack == [0]:
+                    # The start symbol spans the whole input: break out!
+                    # (a start symbol production that is completed deeper
+                    # in the stack is reduced like any other production)
+                    ret_val = r_data
+                    stack.append(prod.name)
+                    stack.append(0)
+                    break
                 state = stack[-1]
                 stack.append(prod.name)
                 stack.append(self.goto_table[(state, prod.name)])
@@ -151,23 +159,6 @@ class LrParser:
                 r_data_stack.append(look_ahead)
                 look_ahead = lexer.next_token()
                 assert type(look_ahead) is Token
-            elif isinstance(action, Accept):
-                # Pop last rule data off the stack:
-                f_args = []
-                param = self.grammar.productions[action.rule]
-                for _ in param.symbols:
-                    stack.pop()
-                    stack.pop()
-                    f_args.append(r_data_stack.pop())
-                f_args.reverse()
-                if param.f:
-                    ret_val = param.f(*f_args)
-                else:
-                    ret_val = None
-                # Break out!
-                stack.append(param.name)
-                stack.append(0)
-                break
         # At exit, the stack must be 1 long
         # TODO: fix that this holds:
         # assert stack == [0, self.grammar.start_symbol, 0]
